@@ -566,7 +566,7 @@ class InProtocolBase(ProtocolMixin):
         seconds = float(duration['seconds'])
         f, i = modf(seconds)
         seconds = i
-        microseconds = int(1e6 * f)
+        microseconds = int(round(1e6 * f))
 
         try:
             delta = timedelta(days=days, hours=hours, minutes=minutes,
